@@ -25,6 +25,11 @@ META = {
 }
 
 FINDINGS = {
+    "C19-subscribe-during-load-misses-events": "SummonSwamp looks for subscribers before the new instance is in the swamp map: a client that "
+                                               "subscribes while the swamp is being loaded finds no instance to switch on, and the instance "
+                                               "starts with event sending off",
+    "C19-event-time-from-record-metadata": "Event.EventTime is taken from the record's CreatedAt / ModifiedAt (client-supplied metadata) "
+                                           "instead of the clock: the wire time of a change is whatever instant the client stored",
     "C19-event-time-nanos-as-seconds": "SubscribeToEvents converts Event.EventTime (UnixNano) with time.Unix(EventTime, 0): the wire "
                                        "timestamp's Seconds field holds the nanosecond count",
     "C19-concurrent-sendmsg": "event callbacks run on each writer's goroutine with no per-stream lock: two writers on different keys "
@@ -62,12 +67,25 @@ def spec_violated(rep):
             m = re.search(r"overlap=(\d+)", line)
             if m and int(m.group(1)) > 0:
                 return "SendMsg calls overlapped under load (%s)" % line
+        if mode == "late":
+            if f[0] == "sub" and line == "ok":
+                subs.add(int(f[1]))
+            if f[0] == "spawn":
+                vals["_late"] = (f[3], "s." + f[4])
+            if f[0] == "go" and " done st=" in line and "_late" in vals:
+                k, v = vals.pop("_late")
+                got = {int(i): [e for e in body.split(";") if e] for i, body in re.findall(r" s(\d+)=\[([^\]]*)\]", line)}
+                for i in sorted(subs):
+                    evs = got.get(i, [])
+                    if len(evs) != 1 or not evs[0].startswith("N:%s=%s@ok" % (k, v)):
+                        return "subscriber %d, subscribed before the first write was committed, received %s instead of the NEW event of %s" % (i, evs, k)
+            continue
         if mode != "seq":
             continue
         got = {int(i): [e for e in body.split(";") if e] for i, body in re.findall(r" s(\d+)=\[([^\]]*)\]", line)}
         # expected events by the Spec
         exp = []
-        if f[0] == "set":
+        if f[0] in ("set", "setm"):
             k, v = f[1], "s." + f[2]
             if k not in vals:
                 exp = [("N", k, v, None)]
@@ -113,7 +131,7 @@ def run(ctx):
     corrs = []
     if K.build_hx(ctx) and K.build_drv(ctx):
         args = ["%s=%s" % (k, facts.get(k, "unknown")) for k in
-                ("timeConv", "sendUnderMutex", "resetsChangedFlags", "oldIsLive", "emittedUnderGuard", "fanoutSynchronous")]
+                ("timeConv", "sendUnderMutex", "resetsChangedFlags", "oldIsLive", "emittedUnderGuard", "fanoutSynchronous", "eventTimeFromClock", "checksSubscribersAfterStore")]
         env = {"C19_EXPECT_SERIAL": "1" if facts.get("sendUnderMutex") == "yes" else "0"}
         c = K.correspondence(ctx, "C19", args, hx_env=env, timeout=600)
         corrs.append(("C19", args, c))
